@@ -1117,11 +1117,18 @@ class C06(Prop, ScriptGen):
         self.init_lib()
 
     # ---- case constructors ---------------------------------------------------------------------
+    def in_domain(self, ti, idx):
+        """the statement speaks about the input `idx` of the spending transaction: an index that names no input is
+        outside its quantifier (kept, marked out-of-domain, to exercise the HASH_ONE branch of the model)"""
+        return 0 <= idx < len(self.txs[ti]['vin'])
+
     def ev(self, script, stack, mask, ti=0, idx=0, tag=''):
-        return mk('c06.eval', bytes(script).hex(), stack_arg(stack), mask, self.txtext[ti], idx, tag=tag)
+        return mk('c06.eval', bytes(script).hex(), stack_arg(stack), mask, self.txtext[ti], idx, tag=tag,
+                  ood=not self.in_domain(ti, idx))
 
     def vf(self, sig, spk, mask, ti=0, idx=0, tag=''):
-        return mk('c06.verify', bytes(sig).hex(), bytes(spk).hex(), mask, self.txtext[ti], idx, tag=tag)
+        return mk('c06.verify', bytes(sig).hex(), bytes(spk).hex(), mask, self.txtext[ti], idx, tag=tag,
+                  ood=not self.in_domain(ti, idx))
 
     def one_op_programs(self):
         progs = []
@@ -1344,6 +1351,13 @@ class C06(Prop, ScriptGen):
             return self.run_history(c['args'])
         raise ValueError(c['op'])
 
+    @staticmethod
+    def verdict(x):
+        """what the statement constrains: accept / reject for VerifyScript; fails, or the final stack, for EvalScript;
+        the value for the number codec.  WHICH error an evaluation fails with (class, message, captured state) is not
+        part of the statement (C07 speaks about the family of escaping exceptions)."""
+        return 'fails' if x.startswith('err:') else x
+
     def agree(self, c, io, mo):
         ios, mos = io.split(' ;; '), mo.split(' ;; ')
         if len(ios) != len(mos):
@@ -1352,7 +1366,7 @@ class C06(Prop, ScriptGen):
             if ' ~ ' not in m1:
                 return False
             m, r = m1.split(' ~ ')
-            if not (i1 == m and (r == '-' or r == m)):
+            if not (self.verdict(i1) == self.verdict(m) and (r == '-' or self.verdict(r) == self.verdict(m))):
                 return False
         return True
 
@@ -1398,8 +1412,8 @@ class C06(Prop, ScriptGen):
         scripts = [bytes.fromhex(c['args'][0])] + ([bytes.fromhex(c['args'][1])] if c['op'] == 'c06.verify' else [])
         ops = [o for s in scripts for (o, _, _) in parse_ops(s)]
         npush = sum(1 for o in ops if o <= 0x4e)
-        if io.startswith('ok') and m == 'err:validation' and npush >= 900:
+        if io.startswith('ok') and m.startswith('err:') and npush >= 900:
             return 'D5-push-skips-stack-limit'
-        if any(o in (0xa5, 0xac, 0xae) for o in ops) and io != m and not io.startswith('err:py'):
+        if any(o in (0xa5, 0xac, 0xae) for o in ops) and self.verdict(io) != self.verdict(m) and not io.startswith('err:py'):
             return 'D4-false-result-pushed-as-00'
         return None
